@@ -1,7 +1,7 @@
 #!/bin/bash
 # run selftests for the given props, summarise
 for p in "$@"; do
-  /verif/bin/gzcheck -prop $p -selftest >/tmp/st-$p.log 2>&1
+  ${GZ:-/verif/bin/gzcheck} -prop $p -selftest >/tmp/st-$p.log 2>&1
   python3 - $p <<'PY'
 import json,sys
 p=sys.argv[1]
